@@ -156,7 +156,15 @@ def run_property(prop, tier, seed, replay=None):
         for k, v in d['schedules'].items():
             schedules.setdefault(k, set()).update(v)
         for k, v in (d.get('extra') or {}).items():
-            if isinstance(v, list):
+            if k == 'anchored_line_coverage':
+                cur = extra.setdefault(k, {})
+                for fn, c in v.items():
+                    if fn not in cur:
+                        cur[fn] = dict(c)
+                    else:
+                        cur[fn]['never'] = [l for l in cur[fn]['never'] if l in c['never']]
+                        cur[fn]['hit'] = cur[fn]['lines'] - len(cur[fn]['never'])
+            elif isinstance(v, list):
                 extra.setdefault(k, [])
                 for e in v:
                     if e not in extra[k] and len(extra[k]) < 50:
